@@ -49,6 +49,12 @@ func c10Msg(kind string, seq int) []byte {
 	case "cer", "cer-retx":
 		return refcodec.EncodeMessage(h(0x80, 257, 0), cerAVPs(4))
 	case "cer-noapp":
+		if seq%2 == 1 {
+			// the unsupported application sits in a Vendor-Specific-Application-Id group, behind its Vendor-Id
+			av := cerAVPs(999)
+			av[len(av)-1] = refcodec.Node{Code: 260, Flags: 0x40, Group: true, Children: []refcodec.Node{u32avp(266, 10415), u32avp(258, 999)}}
+			return refcodec.EncodeMessage(h(0x80, 257, 0), av)
+		}
 		return refcodec.EncodeMessage(h(0x80, 257, 0), cerAVPs(999))
 	case "cer-bare":
 		// unacceptable only because AVPs are ABSENT: no Origin-Host, no application AVP at all
